@@ -279,7 +279,9 @@ namespace optree {
                 DictSetItem(dict, ListGetItem(other_keys, i), py::int_(i));
             }
             if (!DictKeysEqual(expected_keys, dict)) [[unlikely]] {
-                TotalOrderSort(other_keys);
+                // NOTE: `other_keys` is borrowed from the other treespec, sort a copy of it.
+                py::list sorted_other_keys = py::getattr(other_keys, Py_Get_ID(copy))();
+                TotalOrderSort(sorted_other_keys);
                 const auto [missing_keys, extra_keys] = DictKeysDifference(expected_keys, dict);
                 std::ostringstream key_difference_sstream{};
                 if (ListGetSize(missing_keys) != 0) [[likely]] {
@@ -290,7 +292,8 @@ namespace optree {
                 }
                 std::ostringstream oss{};
                 oss << "dictionary key mismatch; expected key(s): " << PyRepr(expected_keys)
-                    << ", got key(s): " + PyRepr(other_keys) << key_difference_sstream.str() << ".";
+                    << ", got key(s): " + PyRepr(sorted_other_keys) << key_difference_sstream.str()
+                    << ".";
                 throw py::value_error(oss.str());
             }
 
